@@ -87,6 +87,13 @@ func c12Run(c *fw.Ctx) fw.Outcome {
 		for _, i := range aItems {
 			snaps[i] = fmt.Sprintf("%d %d %s", i.StartAt, i.EndAt, snapItem(i))
 		}
+		if c.Idx%4 == 1 {
+			// the list has been ordered before and was re-timed in place since
+			if p := guard(func() { prewarm(s) }); p != "" {
+				return fw.Bad(key, nil, "%s", p)
+			}
+			c.Count("order_on_lists_with_a_past", 1)
+		}
 		if p := guard(func() { s.Order() }); p != "" {
 			return fw.Bad(key, nil, "%s", p)
 		}
@@ -153,8 +160,37 @@ func c12Run(c *fw.Ctx) fw.Outcome {
 			break
 		}
 	}
+	// cues refer to the definitions of their own list (deterministic choice: smallest keys first)
+	refer := func(items []*astisub.Item, regions map[string]*astisub.Region, styles map[string]*astisub.Style) {
+		var rk, sk []string
+		for k := range regions {
+			rk = append(rk, k)
+		}
+		for k := range styles {
+			sk = append(sk, k)
+		}
+		sort.Strings(rk)
+		sort.Strings(sk)
+		for _, it := range items {
+			if len(rk) > 0 && r.Bool() {
+				it.Region = regions[fw.Pick(r, rk)]
+			}
+			if len(sk) > 0 && r.Bool() {
+				it.Style = styles[fw.Pick(r, sk)]
+				if r.Bool() {
+					it.Lines[0].Items[0].Style = styles[fw.Pick(r, sk)]
+				}
+			}
+		}
+	}
+	refer(aItems, a.Regions, a.Styles)
+	refer(bItems, b.Regions, b.Styles)
 	bSnapItems := append([]*astisub.Item(nil), b.Items...)
 	bSnap := c12Desc(b.Items)
+	bDeep := make([]string, len(bItems))
+	for k, it := range bItems {
+		bDeep[k] = snapItem(it)
+	}
 	bRegions, bStyles := map[string]*astisub.Region{}, map[string]*astisub.Style{}
 	for k, v := range b.Regions {
 		bRegions[k] = v
@@ -208,6 +244,11 @@ func c12Run(c *fw.Ctx) fw.Outcome {
 	// B unchanged
 	if !samePtrs(b.Items, bSnapItems) || c12Desc(b.Items) != bSnap || len(b.Regions) != len(bRegions) || len(b.Styles) != len(bStyles) {
 		return fw.Bad(key, nil, "Merge changed its argument: B was %s, is %s", bSnap, c12Desc(b.Items))
+	}
+	for k, it := range bItems {
+		if snapItem(it) != bDeep[k] {
+			return fw.Bad(key, nil, "Merge changed its argument: cue %s of B was %s, is %s", itemText(it), bDeep[k], snapItem(it))
+		}
 	}
 	for k, v := range bRegions {
 		if b.Regions[k] != v {
